@@ -102,7 +102,7 @@ func init() {
 		Instrument: map[string]simgen.Options{xgo + "/x/jsonrpc2": {Sync: true, Conc: true, Maps: true}, xgo + "/x/fakenet": {Sync: true, Conc: true, Maps: true}},
 		Harness:    []harnessCopy{{"c39", "x/jsonrpc2"}},
 		TestPkg:    "x/jsonrpc2", TestName: "TestZSimC39",
-		QuickRuns: 12000, ThoroughRuns: 2000000, QuickBudget: 4 * time.Minute, ThoroughBudget: 60 * time.Minute,
+		QuickRuns: 16000, ThoroughRuns: 6000000, QuickBudget: 4 * time.Minute, ThoroughBudget: 60 * time.Minute,
 		MaxStepsQuick: 8000, MaxStepsThor: 30000, Chunk: 375,
 		Rule: "each run draws a transport (synchronous pipe like net.Pipe, or 64/4096-byte buffers), a fault plan (none in ~35% of runs; otherwise short reads, chunked writes, a disconnect in the middle of a write or first noticed by a read, a cut at a byte offset, a half-close, a stall healed in the settle phase), in ~20% of runs a scripted raw peer instead of the second connection (duplicate responses, responses with unknown or wrong-kind ids, error responses, no response, garbage frames, duplicate request ids, unsolicited responses), in ~25% of the other runs a second client dialling the same server, 1-4 caller tasks spread over the two endpoints issuing calls (echo, peek answered on the read loop, slow, async with a later Respond, re-entrant, failing, unknown), notifications, cancel notifications, cancelled Await contexts, second awaiters, Close and Wait, and a scheduling strategy. After the first quiescence faults stop, blocked handlers are released and both ends are closed. Non-trivial = at least one completed Await and 10 context switches; distinct = distinct (event-log hash, workload hash) pairs",
 		Real: []string{"x/jsonrpc2 conn.go, serve.go (Dial, NewServer/run, newConnection), frame.go (HeaderFramer), messages.go, wire.go, jsonrpc2.go compiled from the working tree", "real channels/select (polling order decided by the simulator), context, encoding/json, bufio"},
